@@ -145,6 +145,12 @@ pub fn exec(f: &[&str]) -> Option<String> {
             if let Err(e) = pretty_shape_ok(&tp) { return Some(format!("pretty shape: {}", e)); }
             "ok".into()
         }
+        ["jparse", h] => crate::ops::res_tree(jsonb::parse_value(&unhex(h)?)),
+        // the intended meaning is part of the request
+        ["jexpect", h, want] => match jsonb::parse_value(&unhex(h)?) {
+            Ok(v) => { let got = show_value(&v); if got == *want { "ok".into() } else { format!("MISMATCH got {}", got) } }
+            Err(_) => "MISMATCH rejected".into(),
+        },
         _ => return None,
     })
 }
